@@ -303,7 +303,7 @@ func (e *Env) eval(x ast.Expr) tv {
 		switch b := base.V.(type) {
 		case SliceV:
 			i := e.evalInt(n.Index)
-			return tv{readElem(e.h(), b.Elem, b.Ref, Add(b.Off, i)), b.Elem}
+			return tv{readElem(e.h(), b.Elem, b.Ref, SIdx(b.Off, i)), b.Elem}
 		case *Term:
 			if b.Sort.Kind == SString {
 				i := e.evalInt(n.Index)
